@@ -161,6 +161,7 @@ func c06RealRun(hist []c06Op) (codes []int, obs string, pan string) {
 	mod := vm.AllocateModule("主模块", nil)
 	vm.PushCallFrame(r.NewScriptCallFrame(mod))
 	depth := 1
+	var stepObs strings.Builder
 	for _, op := range hist {
 		v := depth*10 + 1
 		var err error
@@ -179,8 +180,21 @@ func c06RealRun(hist []c06Op) (codes []int, obs string, pan string) {
 			err = vm.SetElement(r.NewIDName(op.Name), value.NewNumber(float64(v+2)))
 		}
 		codes = append(codes, c06Code(err))
+		// look both names up after EVERY step (not only at the end): a lookup cache
+		// that a later declaration or block end fails to invalidate needs the
+		// sequence lookup - change - lookup inside one run
+		for _, n := range c06Names {
+			e, lerr := vm.FindElement(r.NewIDName(n))
+			if lerr != nil {
+				fmt.Fprintf(&stepObs, "%s=E%d;", n, c06Code(lerr))
+			} else {
+				fmt.Fprintf(&stepObs, "%s=%s;", n, e.String())
+			}
+		}
+		stepObs.WriteByte('|')
 	}
 	var sb strings.Builder
+	sb.WriteString(stepObs.String())
 	for _, n := range c06Names {
 		e, err := vm.FindElement(r.NewIDName(n))
 		if err != nil {
@@ -226,8 +240,17 @@ type c06Case struct {
 func c06CheckHistory(hist []c06Op) *mc.Failure {
 	m := &c06Model{blocks: []map[string]c06Sym{{}}}
 	var want []int
+	var stepObs strings.Builder
 	for _, op := range hist {
 		want = append(want, m.apply(op))
+		for _, n := range c06Names {
+			if sy, ok := m.lookup(n); ok {
+				fmt.Fprintf(&stepObs, "%s=%d;", n, sy.val)
+			} else {
+				fmt.Fprintf(&stepObs, "%s=E%d;", n, zn.EUndefined)
+			}
+		}
+		stepObs.WriteByte('|')
 	}
 	codes, obs, pan := c06RealRun(hist)
 	cs := func() json.RawMessage { return mc.J(c06Case{Part: "symtab", History: hist}) }
@@ -241,8 +264,8 @@ func c06CheckHistory(hist []c06Op) *mc.Failure {
 				Expected: fmt.Sprintf("step %d (%v) -> code %d", i, hist[i], want[i]), Observed: fmt.Sprintf("code %d", codes[i])}
 		}
 	}
-	if obs != m.obs() {
-		return &mc.Failure{Kind: "mismatch", Bucket: "symtab-observation", Case: cs(), Expected: m.obs(), Observed: obs}
+	if exp := stepObs.String() + m.obs(); obs != exp {
+		return &mc.Failure{Kind: "mismatch", Bucket: "symtab-observation", Case: cs(), Expected: exp, Observed: obs}
 	}
 	return nil
 }
@@ -315,6 +338,8 @@ var c06LeafList = func() []c06Leaf {
 	for _, n := range []string{"甲", "乙"} {
 		l = append(l, c06Leaf{"D", n}, c06Leaf{"K", n}, c06Leaf{"A", n}, c06Leaf{"P", n})
 	}
+	l = append(l, c06Leaf{"DS", "甲"}) // 令甲 = 甲 + 1: reads the outer name, then shadows it
+	l = append(l, c06Leaf{"NF", ""}) // 以1（无此法）: a fault raised inside a built-in (native) call frame
 	l = append(l, c06Leaf{"A", "参"}, c06Leaf{"P", "参"})
 	l = append(l, c06Leaf{"D", "真"}, c06Leaf{"A", "真"}, c06Leaf{"D", "显示"})
 	l = append(l, c06Leaf{"Y", "甲"})  // （取：n）得到甲
@@ -414,6 +439,10 @@ func (b *c06Builder) stmt(n *c06Node) []zn.Stmt {
 		switch l.kind {
 		case "D":
 			return []zn.Stmt{zn.Decl{Pairs: []zn.DeclPair{{Names: []string{l.name}, Val: b.num()}}}}
+		case "NF":
+			return []zn.Stmt{zn.ExprStmt{E: zn.MCall{Root: zn.Num{Lit: "1"}, Chain: []zn.Call{{Name: "无此法"}}}}}
+		case "DS":
+			return []zn.Stmt{zn.Decl{Pairs: []zn.DeclPair{{Names: []string{l.name}, Val: zn.Bin{Op: "+", L: zn.Var{Name: l.name}, R: zn.Num{Lit: "1"}}}}}}
 		case "K":
 			return []zn.Stmt{zn.Decl{Pairs: []zn.DeclPair{{Names: []string{l.name}, Const: true, Val: b.num()}}}}
 		case "A":
@@ -548,7 +577,7 @@ func init() {
 		ID:    "C06",
 		Level: "model_checking",
 		Rule: "E2: breadth-first search over histories of {begin, end, declare x|y, declare-const x|y, set x|y, declare/set of predefined names} on the real runtime.VM symbol table; every successor is built by replaying its history on a fresh VM; dedup on the model state after the observation battery (both lookups, block depth, live symbols) agreed; step error codes 42/43/44 and the observation are compared with a stack-of-maps model in every state. " +
-			"E1: every statement tree <= k nodes (nesting <= 3) over 17 actions (declare, constant, assign, probe on 甲 乙 参, predefined names, 得到 in both call forms, assignment to a method / type name) inside 6 block kinds (branch, one-pass 每当, one-element 遍历, method call, method ending in a handled exception, recursion depth 3), real interpreter vs reference interpreter on trace, error code and final scope/call depth.",
+			"E1: every statement tree <= k nodes (nesting <= 3) over 19 actions (a failing built-in method call, declare, declare from the same outer name, constant, assign, probe on 甲 乙 参, predefined names, 得到 in both call forms, assignment to a method / type name) inside 6 block kinds (branch, one-pass 每当, one-element 遍历, method call, method ending in a handled exception, recursion depth 3), real interpreter vs reference interpreter on trace, error code and final scope/call depth.",
 		Assumptions: []string{
 			"reference model: lexical block scoping as stated by the property; runs whose outcome depends on a callee seeing a caller's block-local name (dynamic scoping, manual silent) are skipped and counted (open_dynamic_scope)",
 			"error codes are compared only where the error channel keeps them (not across a call boundary); assignment to a predefined name must be rejected, code not compared",
